@@ -62,6 +62,7 @@ static void exercise (SNDFILE *s, const SF_INFO *si, const char *route)
 	{	vh_viol (vh_key ("C03|insane-info|%s", cur_fn), "route %s: channels=%d samplerate=%d frames=%lld sections=%d", route, si->channels, si->samplerate, (long long) si->frames, si->sections) ; return ; }
 	for (a = 0 ; a < vh_nmaj ; a++) if ((si->format & SF_FORMAT_TYPEMASK) == vh_majors [a].format) known |= 1 ;
 	for (a = 0 ; a < vh_nsub ; a++) if ((si->format & SF_FORMAT_SUBMASK) == vh_subs [a].format) known |= 2 ;
+	if ((si->format & SF_FORMAT_SUBMASK) == SF_FORMAT_DWVW_N) { known |= 2 ; vh_stat ("opened_as_DWVW_N", 1) ; }	/* a public constant of sndfile.h that SFC_GET_FORMAT_SUBTYPE does not list: AIFF DWVW with a bit width other than 12/16/24 */
 	if (known != 3) vh_viol (vh_key ("C03|unknown-format-word|%s", cur_fn), "format 0x%x does not name an enumerated container and encoding", si->format) ;
 	vh_statf (1, "opened:%s", vh_short_major (si->format & SF_FORMAT_TYPEMASK)) ;
 	for (t = 0 ; t < T_N ; t++) buf [t] = vh_guard_alloc ((size_t) k * ch * vh_tsize [t], 0xA5) ;	/* exact size: any write beyond the request is an ASan report */
@@ -158,6 +159,20 @@ int main (int argc, char **argv)
 			cur_fn = vh_fname (corpus [j].format) ;
 			vh_distinct (vh_fnv (vh_fnv (0, m.d, (size_t) m.len), &route, 4)) ;
 			if (vh_verbose) fprintf (stderr, "  input: %s\n", desc) ;
+			run_input (&m, route) ;
+			mv_free (&m) ;
+			}
+		}
+	/* systematic field sweep: every even offset of the first 64 header bytes x 14 hostile 32-bit values, on the plain mono corpus files */
+	for (j = 0 ; j < ncorp ; j++) if (corpus [j].meta == 0 && corpus [j].ch == 1)
+	{	int fi, fk ;
+		for (fi = 0 ; fi < 32 ; fi++) for (fk = 0 ; fk < MUTATE_FIELD_KINDS ; fk++)
+		{	MEMF m ; char desc [200] ; int route = ((fi + fk) % 8 == 3) ? 2 : ((fi + fk) % 4 == 1) ? 1 : 0 ;
+			if (!vh_case ("%s@%s ch=%d field=%d value=%d", vh_fname (corpus [j].format), route == 0 ? "vio" : route == 1 ? "fd" : "pipe", corpus [j].ch, fi, fk)) continue ;
+			if (!mutate_field (&m, &corpus [j], fi, fk, 64, desc, sizeof (desc))) continue ;
+			cur_fn = vh_fname (corpus [j].format) ;
+			vh_distinct (vh_fnv (vh_fnv (0, m.d, (size_t) m.len), &route, 4)) ;
+			vh_stat ("field_sweep_inputs", 1) ;
 			run_input (&m, route) ;
 			mv_free (&m) ;
 			}
